@@ -144,6 +144,32 @@ def build_pool(seed, d):
         add(f"compile only ({cfg_name})", jasm_io.make_doc([{"call": ["valid_addr"]}, "mov"], config=cfg), la, {"compile-only": cfg_name}, compile_only=True)
         add(f"fail after config ({cfg_name})", jasm_io.make_doc(["mov", "@nope"], config=cfg, macros=[{"name": "@m", "pattern": "x"}]), bn if cfg_name in ("sections", "style-intel") else la,
             {"fails": "macro-after-config:" + cfg_name}, binary=cfg_name in ("sections", "style-intel"))
+    # a listing of more than a megabyte (size-gated short cuts start somewhere): a range rule that tags one of its calls, and a plain
+    # rule that asks for the literal target of the same call
+    # (the lines are as long as those of a C++ program: rip-relative lea with the mangled name of its target in the comment)
+    sym = "_ZN" + "".join("%d%s" % (len(n_), n_) for n_ in ("boost", "spirit", "qi", "detail", "expect_function", "iterator_range", "context", "cons", "fusion", "unused_type") * 3) + "E"
+    lines = ["", "big:     file format elf64-x86-64", "", "", "Disassembly of section .text:", "", "0000000000500000 <%s>:" % sym]
+    for q in range(4200):
+        a_ = 0x500000 + 7 * q
+        if q == 7:
+            lines.append("  %x:\te8 00 00 00 00       \tcall   500100 <f>" % a_)
+        elif q == 4190:
+            lines.append("  %x:\te9 00 00 00 00       \tjmp    500100 <f>" % a_)
+        else:
+            lines.append("  %x:\t48 8d 05 f9 00 00 00 \tlea    0x%x(%%rip),%%rax        # %x <%s+0x%x>" % (a_, 0x1000 + q, a_ + 0x1007 + q, sym, q))
+    lbig = w("big.s", "\n".join(lines) + "\n")
+    assert os.path.getsize(lbig) > 1_100_000, os.path.getsize(lbig)
+    add("big listing, range", jasm_io.make_doc([{"call": ["valid_addr"]}], config={"valid_addr_range": {"min": "500000", "max": "5fffff"}}), lbig, {"range": "big"}, mode=("list", "all", True))
+    add("big listing, plain target", jasm_io.make_doc([{"call": ["500100"]}]), lbig, {"big": "plain"}, mode=("list", "all", False))
+    # a listing that arrives through a pipe (objdump -d x | jasm -s /dev/stdin; here a named pipe): first with content, then - same
+    # path - with nothing in it
+    fifo = os.path.join(d, "piped_listing.fifo")
+    add("piped listing", jasm_io.make_doc(["push", "mov"]), fifo, {"pipe": "content"}, mode=("list", "all", True))
+    ops[-1]["fifo"] = _listing_b()
+    add("piped listing, nothing delivered", jasm_io.make_doc(["push", "mov"]), fifo, {"pipe": "empty"}, mode=("list", "all", True))
+    ops[-1]["fifo"] = ""
+    add("piped listing, other content", jasm_io.make_doc(["push"]), fifo, {"pipe": "content-a"}, mode=("list", "all", True))
+    ops[-1]["fifo"] = _listing_a()
     # a rule whose sections are all absent from the binary: objdump exits 1, the operation raises - in a fresh process as well
     add("sections all absent", jasm_io.make_doc(["push"], config={"sections": [".init", ".fini"]}), bn, {"fails": "sections-absent"}, binary=True, mode=("list", "all", True))
     add("sections all absent 2", jasm_io.make_doc(["pop", "ret"], config={"sections": [".nosuch"]}), bn, {"fails": "sections-absent"}, binary=True, mode=("bool", "first", False))
@@ -153,13 +179,72 @@ def build_pool(seed, d):
     return ops
 
 
+def _feed_fifo(path, text):
+    """Create the named pipe if need be and deliver `text` through it to the one reader that opens it (a pipe delivers once; the
+    operation is run without the ask-the-same-instance-again variation).  -> (thread, stop event)."""
+    import threading
+
+    if not os.path.exists(path):
+        try:
+            os.mkfifo(path)
+        except FileExistsError:
+            pass
+    stop = threading.Event()
+
+    def writer():
+        try:
+            fd = os.open(path, os.O_WRONLY)  # waits for the reader (or for _release_fifo)
+        except OSError:
+            return
+        try:
+            if not stop.is_set():
+                view = memoryview(text.encode())
+                while view:
+                    view = view[os.write(fd, view):]
+        except OSError:
+            pass
+        finally:
+            os.close(fd)
+
+    t = threading.Thread(target=writer, daemon=True)
+    t.start()
+    return t, stop
+
+
+def _release_fifo(path, t, stop):
+    """After the operation: a writer nobody read from is let go, and no pipe is left in the pool directory (copying the directory
+    would wait on it for ever)."""
+    stop.set()
+    fd = None
+    if t.is_alive():
+        try:
+            fd = os.open(path, os.O_RDONLY | os.O_NONBLOCK)
+        except OSError:
+            fd = None
+    t.join(5)
+    if fd is not None:
+        os.close(fd)
+    try:
+        os.unlink(path)
+    except OSError:
+        pass
+
+
 def run_op(o):
+    if o.get("fifo") is not None:
+        # (the shards share the pool directory: each process has a pipe of its own, under one path for the whole of its history)
+        path = "%s.%d" % (o["input"], os.getpid())
+        t, stop = _feed_fifo(path, o["fifo"])
+        try:
+            return run_op(dict(o, fifo=None, single_read=True, input=path))
+        finally:
+            _release_fifo(path, t, stop)
     mode, search, only = o["mode"]
     if o.get("compile_only"):
         with open(o["rule"]) as f:
             r = jasm_io.compile_rule(f.read(), macros=o["macros"])
         return ["exc", r[1]] if r[0] == "exc" else ["inconclusive"] if r[0] == "inconclusive" else ["ok", r[1]]
-    r = jasm_io.match_files(o["rule"], o["input"], mode=mode, search=search, only_addr=only, macros=o["macros"], binary=o["binary"])
+    r = jasm_io.match_files(o["rule"], o["input"], mode=mode, search=search, only_addr=only, macros=o["macros"], binary=o["binary"], single_read=bool(o.get("single_read")))
     if r[0] == "exc":
         return ["exc", r[1]]
     if r[0] == "inconclusive":
